@@ -156,6 +156,8 @@ ASSUME = [
 ]
 
 def run(ctx, ops=None):
+    import C12_syms
+    vlib.regen(ctx, C12_syms.NAMESPACE, C12_syms.SYMS)
     obligations, discharged = vlib.standard_proof_steps(ctx)
     bins = compile_many(ctx, specs())
     samples, distinct, counts = [], 0, {}
